@@ -26,7 +26,7 @@ ASSUMPTIONS = ['segment.length() is the arc length (C06\'s subject); the oracle 
 TIERS = {
     'quick': {'shards': 14, 'random': 9000, 'timeout': 600, 'min_cases': 6000,
               'require_branches': ['T:nextafter(1,0)', 'T:boundary', 'T:boundary+-ulp', 'path:zero-length-segment',
-                                   'path:ratio>=1e9', 'topo:several-subpaths', 'path:near-miss-joints']},
+                                   'path:ratio>=1e9', 'topo:several-subpaths', 'path:near-miss-joints', 'path:derived-after-queries']},
     'thorough': {'shards': 14, 'random': 400000, 'timeout': 3000, 'min_cases': 200000,
                  'require_branches': ['T:nextafter(1,0)', 'T:boundary', 'T:boundary+-ulp', 'path:zero-length-segment',
                                       'path:ratio>=1e9', 'topo:several-subpaths']},
@@ -364,6 +364,26 @@ def run_case(ctx, case):
             ctx.branch('path:ratio>=1e9')
         if c == 'near-miss-joints':
             ctx.branch('path:near-miss-joints')
+    _exercise(ctx, p, rng)
+    # a path derived from one that has already answered queries (and so carries cached fractions) is a path
+    # like any other: the same relations hold for it, with its own segments' arc-length fractions
+    has_arc = any(type(s).__name__ == 'Arc' for s in p)
+    how = rng.choice(['reversed', 'translated', 'rotated', 'scaled-uniform'] + ([] if has_arc else ['scaled-xy', 'scaled-xy']))
+    try:
+        q = {'reversed': lambda: p.reversed(), 'translated': lambda: p.translated(3 - 4j),
+             'rotated': lambda: p.rotated(37.0), 'scaled-uniform': lambda: p.scaled(2.5),
+             'scaled-xy': lambda: p.scaled(3.0, 0.25)}[how]()
+    except Exception:
+        return                      # transformations are C10's subject
+    ctx.branch('path:derived-after-queries')
+    ctx.note('derived:' + how)
+    try:
+        _exercise(ctx, q, rng, light=True)
+    except core.Skip:
+        pass
+
+
+def _exercise(ctx, p, rng, light=False):
     m = _model(p)
     if m is None:
         raise core.Skip('path of zero or non-finite length')
@@ -376,6 +396,8 @@ def run_case(ctx, case):
             Ts += [c, float(np.nextafter(c, 0.0)), float(np.nextafter(c, 1.0))]
     Ts += [rng.uniform(0, 1) for _ in range(4)]
     Ts += [1 - 10.0 ** rng.uniform(-16, -3), 10.0 ** rng.uniform(-16, -3)]
+    if light:
+        Ts = Ts[:1] + Ts[6:]
     for T in Ts:
         if not 0 <= T <= 1:
             continue
